@@ -404,6 +404,29 @@ def run(case):
             c.cmp(f"E={E}/tangent", "orthotropic linear elasticity vs orthotropic SVK tangent at F = I (via lame_converter_orthotropic)", AI, lo.hessian()[0][..., 0, 0], 1e-9)
             c.cmp(f"E={E}/stress-free", "orthotropic SVK stress at F = I", PI, np.zeros((3, 3)), 1e-12)
             c.trans += 3
+            # the same constants in every container a caller may keep them in (lists, tuples, float64 / float32 / integer-free
+            # arrays), shared between the linear law and the converter, in both orders of use and with the converter called
+            # twice: the caller's containers keep their values and both laws keep agreeing with the reference tangent
+            ref_t = np.array(lo.hessian()[0][..., 0, 0], dtype=float, copy=True)
+            for clab, conv in (("float64-arrays", lambda v: np.array(v, dtype=float)), ("tuples", tuple), ("float32-arrays", lambda v: np.array(v, dtype=np.float32))):
+                for order_ in ("law-first", "converter-first"):
+                    E_, nu_, G_ = conv(E), conv(nu), conv(G)
+                    keep = [np.array(x_, dtype=float, copy=True) for x_ in (E_, nu_, G_)]
+                    if order_ == "law-first":
+                        lo2 = fem.LinearElasticOrthotropic(E=E_, nu=nu_, G=G_)
+                    lm1 = C.lame_converter_orthotropic(E=E_, nu=nu_, G=G_)
+                    lm2 = C.lame_converter_orthotropic(E=E_, nu=nu_, G=G_)
+                    if order_ == "converter-first":
+                        lo2 = fem.LinearElasticOrthotropic(E=E_, nu=nu_, G=G_)
+                    c.trans += 3
+                    tl = 1e-9 if clab != "float32-arrays" else 1e-5
+                    for nm_, x_, k_ in zip("E nu G".split(), (E_, nu_, G_), keep):
+                        if not np.array_equal(np.asarray(x_, dtype=float), k_):
+                            c.bad(f"E={E}/{clab}/{order_}/argument-modified/{nm_}", "the caller's container of elastic constants was modified", np.asarray(x_, dtype=float).tolist(), k_.tolist(), 0)
+                    c.cmp(f"E={E}/{clab}/{order_}/law", "orthotropic linear elasticity built from shared containers, evaluated after the conversion", lo2.hessian()[0][..., 0, 0], ref_t, tl)
+                    c.cmp(f"E={E}/{clab}/{order_}/converter-twice/lmbda", "second conversion of the same containers", np.asarray(lm2[0], float), np.asarray(lm1[0], float), 1e-12)
+                    c.cmp(f"E={E}/{clab}/{order_}/converter-twice/mu", "second conversion of the same containers", np.asarray(lm2[1], float), np.asarray(lm1[1], float), 1e-12)
+                    c.cmp(f"E={E}/{clab}/{order_}/converter/lmbda", "Lame parameters from another container type", np.asarray(lm1[0], float), np.asarray(lmbda, float), tl)
         # isotropic limit equals LinearElastic
         Eiso, nuiso = 6.0, 0.25
         c.cmp("isotropic-limit", "orthotropic law with isotropic constants vs LinearElastic", fem.LinearElasticOrthotropic(E=[Eiso] * 3, nu=[nuiso] * 3, G=[Eiso / 2 / (1 + nuiso)] * 3).hessian()[0], fem.LinearElastic(E=Eiso, nu=nuiso).hessian()[0], 1e-12)
